@@ -12,7 +12,12 @@ THEOREMS = ['C03.journal_is_declaration', 'C03.memoisation_keeps_journal', 'C03.
             # the phases as written are the model (Pi2/Props/C08b.lean, Pi2/ProofTie.lean, vlib/transproof.py)
             'C03.phases_text_is_the_model', 'C03.memo_phases_text_is_the_model', 'C03.serialize_text_shape',
             # execute_full as written ON the StatefulInterpreter as written is the model (Pi2/ComposeTie.lean)
-            'C03.phases_text_on_stateful_text_is_the_model', 'C03.memo_phases_text_on_stateful_text_is_the_model']
+            'C03.phases_text_on_stateful_text_is_the_model', 'C03.memo_phases_text_on_stateful_text_is_the_model',
+            # the memoiser's slot budget (Props/C03b.lean, SlotBudget.lean): finalize returns at most B - len(memory) suggestions; a memoising
+            # run saves every suggestion at most once and every axiom once, so with B = 256 no Load addresses a slot beyond 255; attained by
+            # the 129-axiom module (256 entries, Load 255)
+            'C03.finalize_budget', 'C03.finalize_budget_general', 'C03.memo_run_memory_bound', 'C03.canonical_plain', 'C03.optimized_run_fits',
+            'C03.optimized_slots_fit_in_a_byte', 'C03.load_operands_below_memory', 'C03.budget_attained']
 
 
 def declared(m):
@@ -79,7 +84,7 @@ def id_module(i):
 
 def run(rep):
     rng = random.Random(rep.seed * 1000003 + 3)
-    ok, detail = core.proof_gate(rep, 'Pi2.Props.C08b', THEOREMS)
+    ok, detail = core.proof_gate(rep, 'Pi2.Props.C03c', THEOREMS)
     quick = rep.tier == 'quick'
     mods = ms.gen_modules(rng, 100 if quick else 2000)
     # diamond imports and duplicated axioms
